@@ -223,6 +223,13 @@ def compare_cases(ck, cases, cbs_of, want=None, release=False, nontrivial=None, 
     cbs_of(case) -> list of callbacks; nontrivial(case, model) -> key or None."""
     from concurrent.futures import ThreadPoolExecutor
     allw = ['csv', 'unspent', 'balances', 'opreturn', 'stats', 'opens']
+    # generic rotation of dimensions no property depends on, so that every property's cases also run under them: verbosity (default, -v, -vv) and an XOR-obfuscated
+    # directory (the model un-XORs like the code; C11 proves and tests the equivalence itself). A module opts out per case with meta['fixed'] = True.
+    rot = random.Random(ck.seed * 7919 + len(cases))
+    for i, c in enumerate(cases):
+        if c.meta.get('fixed'): continue
+        if not hasattr(c, 'verbosity') and i % 4 >= 2: c.verbosity = i % 4 - 1
+        if c.xor is None and i % 7 == 5: c.xor = bytes(rot.randrange(1, 256) for _ in range(rot.choice([8, 8, 3, 2])))
     models = run.run_model(ck.tools, cases, (lambda c: [w for w in allw if w in cbs_of(c) or w == 'opens']) if want is None else want)
     def one(c):
         try:
